@@ -500,8 +500,14 @@ def run(ctx, col: Collector):
         mp = mutation_pred(ctx, fi)
         loops = [n for n in walk_no_nested(fi.node) if isinstance(n, ast.For) and ('col1' in norm(n.iter) and 'col2' in norm(n.iter))]
         if not loops:
-            col.bad('C09-guard', 'Database.add_reference:touches-database:present',
-                    'add_reference no longer checks that at least one endpoint table belongs to this database', node=fi.node, file=fi.file)
+            from .common import raises_in_closure
+            still = raises_in_closure(ctx, fi, DVE)
+            if len(still) >= 2:
+                col.unk('C09-guard', 'Database.add_reference:touches-database:present', 'add_reference raises its validation error in a form this rule does not read '
+                        '(no loop over the endpoint columns found)', node=fi.node, file=fi.file)
+            else:
+                col.bad('C09-guard', 'Database.add_reference:touches-database:present',
+                        'add_reference no longer checks that at least one endpoint table belongs to this database', node=fi.node, file=fi.file)
         else:
             loop = loops[0]
             n_ex = 0
